@@ -773,7 +773,7 @@ def mpc_atanh(z, prec, rnd=round_fast):
     # wrong real part (should be zero)
     if v[0] == fnan and mpc_is_inf(z):
         v = (fzero, v[1])
-    return v
+    return mpc_pos(v, prec, rnd)
 
 def mpc_fibonacci(z, prec, rnd=round_fast):
     re, im = z
